@@ -189,7 +189,7 @@ func main() {
 
 		const lim = int64(1) << 61
 		epochs := []int64{0, 1704067200e9, 946684799999999999, 4102444800e9, -2208988800e9, 1, -1}
-		nCfg := c.N(45, 1500)
+		nCfg := c.N(45, 600)
 		for i := 0; i < nCfg; i++ {
 			rr := c.Rand.Fork()
 			var cycle int64
